@@ -157,6 +157,10 @@ def check(repo, col, tier):
     # the builders create sub-views of the population views they are given (cell by cell): a sub-view's edges are those of its parent
     col.rule("R-C20-views", "a sub-view keeps only edges of its parent view, with both ends in view", 3)
     c11._edges(repo, col, "R-C20-views")
+    # the populations the builders connect are the view's lists of global cell / compartment indices
+    c11.listed_in_view(repo, col, "R-C20-views")
+    # ... and the populations are selected with `net.cell(<index>)`: every index form names the cells it says (a slice with its step)
+    c11._index(repo, col, "R-C20-views")
 
 
 def recorded_locs(repo, col, R):
